@@ -46,6 +46,21 @@ def make_ctx():
     return SNAXOptMain(args=[]).ctx
 
 
+def make_main():
+    from snaxc.tools.snax_opt_main import SNAXOptMain
+
+    return SNAXOptMain(args=[])
+
+
+def apply_passes(module, spec, main=None):
+    """run a textual pass pipeline (as snax-opt -p would) in-process on a module; returns the context used."""
+    from xdsl.passes import PassPipeline
+
+    main = main or make_main()
+    PassPipeline.parse_spec(main.available_passes, spec).apply(main.ctx, module)
+    return main.ctx
+
+
 def repo_head():
     import subprocess
 
